@@ -1,7 +1,24 @@
 (* C22 — Server push rules are enforced on both ends. *)
+From H2 Require Import Proofs.C22Full.
 From H2 Require Import Base.Prelude Base.PyDict Model.FsmTypes Gen.Consts Gen.Tables Gen.Guards Model.Types Model.Windows Model.WmHist Model.SettingsV Model.Settings Model.StreamFSM Model.Headers Model.Stream Model.ConnState Model.Connection Proofs.FsmReach Proofs.C0708Proofs Proofs.PushProofs Proofs.AltSvcUpgradeProofs.
 
 (* ---------- C22: local push ---------- *)
+(* The "only when" half of "push_stream succeeds exactly when ...", for EVERY connection state and every argument: a
+   push_stream call that succeeds was made on a connection in state SERVER_OPEN whose peer allows push, on an odd
+   (client-initiated) parent that is in the stream table, open or half-closed (remote) and not playing the client role,
+   with an even promised id above the watermark of its direction. *)
+Theorem C22_push_stream_only_when_the_rules_hold :
+  forall sid promised hs L c c',
+    api_push_stream sid promised hs L c = (c', Ok tt) ->
+    s_enable_push (c_remote c) <> 0 /\
+    c_state c = C_SERVER_OPEN /\
+    sid mod 2 = 1 /\
+    promised mod 2 = 0 /\ promised > highest_for c promised /\
+    exists s, dget sid (c_streams c) = Some s /\
+              (sm_state (s_sm s) = S_OPEN \/ sm_state (s_sm s) = S_HALF_CLOSED_REMOTE) /\
+              client_is (s_sm s) true = false.
+Proof. exact push_stream_only_when_the_rules_hold. Qed.
+
 Theorem C22_push_refused_when_peer_disabled_push :
   forall sid promised hs L c,
   s_enable_push (c_remote c) = 0 -> api_push_stream sid promised hs L c = (c, perr).
@@ -42,3 +59,4 @@ Print Assumptions C22_push_on_pushed_stream_refused.
 Print Assumptions C22_push_promise_is_connection_error_when_push_disabled.
 Print Assumptions C22_push_promise_on_pushed_stream_refused.
 Print Assumptions C22_pushed_stream_event_shape.
+Print Assumptions C22_push_stream_only_when_the_rules_hold.
